@@ -139,6 +139,10 @@ def build_scenario(tmpdir, variant):
 
     def posted(request):
         return Response(b'posted %d' % len(request.get_data()))
+
+    def opt_ep(a, b):
+        return Response('a=%r b=%r' % (a, b), mimetype='text/plain')
+    from clastic import SubApplication, S_STRICT
     fpath = os.path.join(tmpdir, 'served.txt')
     from clastic.render import JSONRender, JSONPRender, render_json_dev
     routes = [('/sjson', ctx, JSONRender(streaming=True)), ('/sjsonp', ctx, JSONPRender(streaming=True)),
@@ -146,14 +150,22 @@ def build_scenario(tmpdir, variant):
               ('/resp', resp), ('/stream', stream), ('/ctx', ctx, render_basic), StaticFileRoute('/file', fpath),
               ('/boomsurr', boom_surr), ('/forbsurr', forbidden_surr),
               ('/static', StaticApplication(tmpdir)), ('/branch/', resp), ('/item/<x>/', resp), ('/boom', boom), ('/forbidden', forbidden),
-              POST('/post', posted), ('/meta', MetaApplication())]
+              POST('/post', posted), ('/meta', MetaApplication()),
+              # a strict-mode part whose route consists of optional bindings only (asked for with none, one, both)
+              SubApplication('/opt', Application([('/<a?>/<b?int>', opt_ep)], slash_mode=S_STRICT), inherit_slashes=False),
+              Route('/sopt/<a?>/<b?float>', opt_ep, slash_mode=S_STRICT)]
+    if variant == 'optroot':
+        # a strict-mode application whose first route is made of optional bindings only: '/' is its empty assignment
+        return Application([('/<a?>/<b?int>', opt_ep), ('/resp', resp), ('/<a?>/<b?>/<c?float>', lambda a, b, c: Response(repr((a, b, c))))],
+                           slash_mode=S_STRICT)
     mws = {'plain': [], 'gzip': [GzipMiddleware()], 'cache': [HTTPCacheMiddleware()], 'debug': [],
            'gzip+cache': [GzipMiddleware(), HTTPCacheMiddleware()]}[variant]
     return Application(routes, middlewares=mws, debug=(variant == 'debug'))
 
 
 PATHS = ['/boomsurr', '/forbsurr', '/sjson', '/sjsonp', '/jsond', '/item/a\x01b', '/item/\x7f/', '/item/tab\there', '/resp', '/stream', '/ctx', '/file', '/static/served.txt', '/static/noext', '/static/missing', '/branch', '/boom',
-         '/forbidden', '/post', '/meta/', '/meta/json/', '/nothing/here', '/static/../x']
+         '/forbidden', '/post', '/meta/', '/meta/json/', '/nothing/here', '/static/../x',
+         '/', '/x', '/x/3', '/x/y/1.5', '/opt', '/opt/', '/opt/x', '/opt/x/3', '/opt//3', '/sopt', '/sopt/x', '/sopt/x/1.5', '/sopt//']
 METHODS = ['GET', 'HEAD', 'POST', 'OPTIONS']
 MTIME = 1500000000
 
@@ -181,7 +193,7 @@ def run_kinds(acc, i, n, tier):
         from clastic import Application as _App
         _other = _App([('/x', lambda: None)])
         _other.serve(_jk_just_testing=True, use_meta=False, use_static=False)
-        for variant in ('plain', 'gzip', 'cache', 'debug', 'gzip+cache', 'plain@2**32', 'plain@2**64'):
+        for variant in ('plain', 'gzip', 'cache', 'debug', 'gzip+cache', 'plain@2**32', 'plain@2**64', 'optroot'):
             if '@' in variant:
                 # a long-lived process: the process-wide request counter has passed 2**32 / 2**64
                 import clastic.application as _ca
